@@ -180,7 +180,7 @@ def check_pair(chk, a, b):
 
 def run(chk):
     dump = chk.scratch.file("ols.dump")
-    r = tlc.must_pass(tlc.run("OlsMC", "OlsMC.cfg", chk.scratch, dump=dump, timeout=1800), "OlsMC")
+    r = tlc.must_pass(tlc.run("OlsMC", "OlsMC.thorough.cfg" if chk.tier == "thorough" else "OlsMC.cfg", chk.scratch, dump=dump, timeout=1800), "OlsMC")
     chk.add_tlc(r, "OlsMC")
     n = exact = 0
     groups = {}
